@@ -814,12 +814,6 @@ def index(base: T, idx: Tuple[T, ...], ranks: Optional[RankEnv] = None) -> T:
             return base.parts[0].elems[0]
         if cv > 0:
             return index(rest, (add(k, -1),), ranks)
-    if isinstance(base, Idx) and len(base.idx) == 1 and isinstance(base.idx[0], Slc) and base.idx[0].step is None and base.idx[0].lo is None \
-            and len(idx) == 1 and not isinstance(idx[0], Slc):
-        # s[:hi][k] == s[k] for a position k of the prefix (k >= 0)
-        k_c = idx[0].const_value() if isinstance(idx[0], Poly) else None
-        if k_c is None or k_c >= 0:
-            return index(base.base, idx, ranks)
     if isinstance(base, Idx) and len(base.idx) == 1 and isinstance(base.idx[0], Slc) and base.idx[0].step is None and base.idx[0].hi is None \
             and base.idx[0].lo is not None and len(idx) == 1 and not isinstance(idx[0], Slc):
         # s[lo:][k] == s[lo + k] for constant lo, k >= 0 (tuple tails from `a, *rest = s`)
